@@ -12,8 +12,8 @@ pub open spec fn tsv(v: Seq<Token>) -> Seq<(Seq<char>, Seq<char>)> { toks_view(v
 pub open spec fn strs(v: Seq<String>) -> Seq<Seq<char>> { v.map_values(|s: String| s@) }
 
 // a produced word becomes a token; a word with a blank stays ONE argument (double-quote tag)
-// (expand_glob, g = true: a file name that contains an operator character is data as well)
-pub open spec fn mk_tok(s: Seq<char>, g: bool) -> (Seq<char>, Seq<char>) { (if s.contains(' ') || (g && has_op(s)) { "\""@ } else { ""@ }, s) }
+// (expand_glob, g = true: a file name that contains an operator character or a `{` (the range pass runs later) is data as well)
+pub open spec fn mk_tok(s: Seq<char>, g: bool) -> (Seq<char>, Seq<char>) { (if s.contains(' ') || (g && (has_op(s) || s.contains('{'))) { "\""@ } else { ""@ }, s) }
 pub open spec fn mk_toks(items: Seq<Seq<char>>, g: bool) -> Seq<(Seq<char>, Seq<char>)> { items.map_values(|s: Seq<char>| mk_tok(s, g)) }
 
 pub type BV = Seq<(int, Seq<Seq<char>>)>;
@@ -307,12 +307,18 @@ pub uninterp spec fn spec_range_match(t: Seq<char>) -> bool;
 // the text before / after the first `{m..n[..s]}` group of the word (Match::start / Match::end of capture 0)
 pub uninterp spec fn spec_range_head(t: Seq<char>) -> Seq<char>;
 pub uninterp spec fn spec_range_tail(t: Seq<char>) -> Seq<char>;
+// the bound texts of that group (capture groups 1, 2 and the optional step, group 4)
+pub uninterp spec fn spec_range_c1(t: Seq<char>) -> Seq<char>;
+pub uninterp spec fn spec_range_c2(t: Seq<char>) -> Seq<char>;
+pub uninterp spec fn spec_range_c4(t: Seq<char>) -> Option<Seq<char>>;
 #[verifier::external_body]
 pub fn vx_range_is_match(t: &str) -> (r: bool) ensures r == spec_range_match(t@) { unimplemented!() }
 #[verifier::external_body]
 pub fn vx_range_captures(t: &str) -> (r: Option<VxRangeCaps>)
     ensures r.is_some() == spec_range_match(t@),
         r.is_some() ==> r.unwrap().head@ == spec_range_head(t@) && r.unwrap().tail@ == spec_range_tail(t@)
+            && r.unwrap().c1@ == spec_range_c1(t@) && r.unwrap().c2@ == spec_range_c2(t@)
+            && (match r.unwrap().c4 { Some(x) => spec_range_c4(t@) == Some(x@), None => spec_range_c4(t@).is_none() })
 { unimplemented!() }
 pub struct VxParseErr { pub e: i32 }
 pub uninterp spec fn spec_parse_i32(t: Seq<char>) -> Option<int>;
@@ -320,6 +326,11 @@ pub uninterp spec fn spec_parse_i32(t: Seq<char>) -> Option<int>;
 pub fn vx_parse_i32(t: &str) -> (r: Result<i32, VxParseErr>)
     ensures match r { Ok(x) => spec_parse_i32(t@) == Some(x as int), Err(_) => spec_parse_i32(t@).is_none() }
 { unimplemented!() }
+// a word is range-expanded when it has a group AND its bounds fit an i32; a word whose bound does not is left as it is (and alone: the others still expand)
+pub open spec fn range_ok(t: Seq<char>) -> bool {
+    spec_range_match(t) && spec_parse_i32(spec_range_c1(t)).is_some() && spec_parse_i32(spec_range_c2(t)).is_some()
+    && (spec_range_c4(t).is_some() ==> spec_parse_i32(spec_range_c4(t).unwrap()).is_some())
+}
 pub uninterp spec fn spec_int_str(n: int) -> Seq<char>;
 #[verifier::external_body]
 pub fn vx_int_to_string(n: i64) -> (r: String) ensures r@ == spec_int_str(n as int) { format!("{}", n) }
@@ -444,8 +455,8 @@ expand_glob = Fn(S, 'expand_glob',
     let_types={'buff': 'Vec<(usize, Vec<String>)>'},
     loop_kinds={1: 'value', (1, 'clone'): 'vx_clone_entry(&{})'},
     ensures=[
-        ('C12+C13+C01.glob.result_is_splice_or_unchanged',
-         '(tsv(final(tokens)@) == tsv(old(tokens)@)) || ' +
+        # every word that needs globbing is handled, whatever the other words of the line look like (a malformed pattern stays as it is)
+        ('C12+C13+C01.glob.result_is_the_splice',
          splice_ensures('', 'b[m].1.len() > 0', 'spec_needs_globbing', g='true')[1]),
     ],
     loops={
@@ -479,12 +490,12 @@ RANGE_RW = TYRW + [
 expand_brace_range = Fn(S, 'expand_brace_range', pre_rewrites=[], rewrites=[], int_args=('n',), props=('C12',),
     let_types={'buff': 'Vec<(usize, Vec<String>)>'},
     ensures=[
-        ('C12+C13+C01.range.result_is_splice_or_unchanged',
-         '(tsv(final(tokens)@) == tsv(old(tokens)@)) || ' +
-         splice_ensures('', 'b[m].1.len() > 0', 'spec_range_match')[1]),
+        # every word with a well-formed range is expanded, whatever the other words of the line look like
+        ('C12+C13+C01.range.result_is_the_splice',
+         splice_ensures('', 'b[m].1.len() > 0', 'range_ok')[1]),
     ],
     loops={
-        0: Loop(invariant=first_loop_inv('range', 'bview(buff@)[m].1.len() > 0', 'spec_range_match')),
+        0: Loop(invariant=first_loop_inv('range', 'bview(buff@)[m].1.len() > 0', 'range_ok')),
         1: Loop(invariant=[
             ('C12.inv.range.desc_bounds', 'incr >= 1 && start > end && n <= start && -0x8000_0000 <= end && start <= 0x7fff_ffff && incr <= 0x7fff_ffff'),
             ('C12.inv.range.desc_seq', 'n as int == start as int - result@.len() * incr as int && '
